@@ -1,7 +1,7 @@
 CONSTANTS
   Mode = "readfull"
   MaxCuts = 2
-  TwoCut = {}
+  TwoCut = {"c123", "c15", "cbig", "cmany", "chuge", "up", "uprsrc", "up0", "upbig", "down", "fup"}
   Sim = FALSE
 INIT Init
 NEXT GenNext
